@@ -119,4 +119,237 @@ theorem unitSolver_bad_operand (T : Tables) (lead piece post : Str) (hl : leadOk
       (2 * (pre ++ [op] ++ piece ++ post).length + 1) (by simp; omega)
     exact ⟨err, unitSolver_of_tokenize_error T _ err (by simpa using herr)⟩
 
+/-! ## any depth: fuel-free versions and the inductive description of a text with a refused operand -/
+
+theorem tokenize_zero (T : Tables) (right left : Str) (toks : List Tok) :
+    tokenize T 0 right left toks = .error .fuel := by
+  rw [tokenize]
+
+/-- fuel-free form of `tokenize_bad_piece` (running out of fuel is an error, too; that it never
+    happens for the fuel of `unitSolver` is `unitSolver_no_fuel`) -/
+theorem tokenize_bad_first (T : Tables) (piece post : Str) (hp : tokPlain piece) (hpost : stopsAt post)
+    (hne : strip piece ≠ []) (hbad : ∃ e, atomParse T (strip piece) = .error e) (f : Nat) (toks : List Tok) :
+    ∃ err, tokenize T f (piece ++ post) [] toks = .error err := by
+  by_cases hf : piece.length + 1 ≤ f
+  · exact tokenize_bad_piece T post hpost piece hp [] toks f hf (by simpa using hne) (by simpa using hbad)
+  · -- too little fuel: the loop shifts `f` characters and stops with the fuel error
+    have hgen : ∀ (w : Str), tokPlain w → ∀ (f : Nat) (left : Str), f < w.length + 1 →
+        tokenize T f (w ++ post) left toks = .error .fuel := by
+      intro w
+      induction w with
+      | nil => intro _ f left hf; have : f = 0 := by simp at hf; omega
+               subst this; exact tokenize_zero T _ _ _
+      | cons c rest ih =>
+        intro hw f left hf
+        cases f with
+        | zero => exact tokenize_zero T _ _ _
+        | succ f' =>
+          obtain ⟨h1, h2, h3⟩ := hw c (by simp)
+          have hrest : tokPlain rest := fun x hx => hw x (List.mem_cons_of_mem _ hx)
+          rw [List.cons_append, tokenize]
+          simp [h1, h2, h3, ih hrest f' (c :: left) (by simp at hf; omega)]
+    exact ⟨.fuel, hgen piece hp f [] (by omega)⟩
+
+/-- walking over a parenthesis-free text: the loop either fails or arrives at the tail -/
+theorem tokenize_walk (T : Tables) (tail : Str)
+    (htail : ∀ (f : Nat) (left : Str) (toks : List Tok), ∃ err, tokenize T f tail left toks = .error err) :
+    ∀ (pre : Str), '(' ∉ pre → ∀ (f : Nat) (left : Str) (toks : List Tok),
+    ∃ err, tokenize T f (pre ++ tail) left toks = .error err := by
+  intro pre
+  induction pre with
+  | nil => intro _ f left toks; simpa using htail f left toks
+  | cons c pre' ih =>
+    intro hnp f left toks
+    have hc : c ≠ '(' := fun h => hnp (by simp [h])
+    have hnp' : '(' ∉ pre' := fun h => hnp (List.mem_cons_of_mem _ h)
+    cases f with
+    | zero => exact ⟨.fuel, tokenize_zero T _ _ _⟩
+    | succ f' =>
+      rw [List.cons_append, tokenize]
+      by_cases hm : c = '*'
+      · subst hm
+        cases hfl : flushLeft T left toks with
+        | error e => exact ⟨e, by simp⟩
+        | ok toks1 =>
+          obtain ⟨err, herr⟩ := ih hnp' f' [] (toks1 ++ [.mul])
+          exact ⟨err, by simp [herr]⟩
+      · by_cases hd : c = '/'
+        · subst hd
+          cases hfl : flushLeft T left toks with
+          | error e => exact ⟨e, by simp⟩
+          | ok toks1 =>
+            obtain ⟨err, herr⟩ := ih hnp' f' [] (toks1 ++ [.div])
+            exact ⟨err, by simp [herr]⟩
+        · obtain ⟨err, herr⟩ := ih hnp' f' (c :: left) toks
+          exact ⟨err, by simp [hc, hm, hd, herr]⟩
+
+/-- the text between `(` and its matching `)`: the depth counter (starting at `d`) never closes
+    the group inside, and there is no comma at depth 1 -/
+def innerOk : Str → Nat → Bool
+  | [], d => d == 1
+  | c :: r, d =>
+    if c = '(' then innerOk r (d + 1)
+    else if c = ',' then d != 1 && innerOk r d
+    else if c = ')' then d != 1 && innerOk r (d - 1)
+    else innerOk r d
+
+/-- a text in which the group opened before it is never closed -/
+def unclosed : Str → Nat → Bool
+  | [], _ => true
+  | c :: r, d =>
+    if c = '(' then unclosed r (d + 1)
+    else if c = ')' then d != 1 && unclosed r (d - 1)
+    else unclosed r d
+
+theorem scanPar_inner (tail : Str) : ∀ (inner : Str) (d : Nat) (left : Str) (args : List Str),
+    innerOk inner d = true →
+    scanPar (inner ++ ')' :: tail) d left args = .ok (args ++ [strip (inner.reverse ++ left).reverse], tail) := by
+  intro inner
+  induction inner with
+  | nil =>
+    intro d left args h
+    simp only [innerOk, beq_iff_eq] at h
+    subst h
+    simp [scanPar]
+  | cons c r ih =>
+    intro d left args h
+    rw [List.cons_append, scanPar]
+    unfold innerOk at h
+    by_cases h1 : c = '('
+    · simp only [h1, if_true] at h ⊢
+      rw [ih _ _ _ h]; simp
+    · by_cases h2 : c = ','
+      · subst h2
+        simp only [h1, if_false, if_true, Bool.and_eq_true, bne_iff_ne, ne_eq] at h
+        have h3 : ¬ (',' : Char) = ')' := by decide
+        simp only [h1, if_false, h.1, and_false, h3]
+        rw [ih _ _ _ h.2]; simp
+      · by_cases h3 : c = ')'
+        · subst h3
+          simp only [h1, h2, if_false, if_true, Bool.and_eq_true, bne_iff_ne, ne_eq] at h
+          simp only [h1, if_false, if_true, h.1]
+          rw [ih _ _ _ h.2]; simp
+        · simp only [h1, h2, h3, if_false] at h
+          have hd : ¬ (c = ',' ∧ d = 1) := fun hh => h2 hh.1
+          simp only [h1, h3, hd, if_false]
+          rw [ih _ _ _ h]; simp
+
+theorem scanPar_unclosed : ∀ (rest : Str) (d : Nat) (left : Str) (args : List Str),
+    unclosed rest d = true → scanPar rest d left args = .error .paren := by
+  intro rest
+  induction rest with
+  | nil => intro d left args _; simp [scanPar]
+  | cons c r ih =>
+    intro d left args h
+    rw [scanPar]
+    unfold unclosed at h
+    by_cases h1 : c = '('
+    · simp only [h1, if_true] at h ⊢
+      exact ih _ _ _ h
+    · by_cases h3 : c = ')'
+      · subst h3
+        simp only [h1, if_false, if_true, Bool.and_eq_true, bne_iff_ne, ne_eq] at h
+        simp only [h1, if_false, if_true, h.1]
+        exact ih _ _ _ h.2
+      · simp only [h1, h3, if_false] at h
+        simp only [h1, h3, if_false]
+        split
+        · exact ih _ _ _ h
+        · exact ih _ _ _ h
+
+/-- A text with a refused operand at a place the scan reaches, or with a group that is never
+    closed.  `first`: the operand stands at the start (up to blanks) and is followed by the end of
+    the text or `(`, `*`, `/`.  `afterOp`: behind an operator sign after any parenthesis-free
+    text.  `inPar` / `afterPar`: inside, or behind, the first parenthesised group (single
+    argument).  `open`: the first `(` has no matching `)`. -/
+inductive BadText (T : Tables) : Str → Prop
+  | first (piece post : Str) : tokPlain piece → stopsAt post → strip piece ≠ [] →
+      (∃ e, atomParse T (strip piece) = .error e) → BadText T (piece ++ post)
+  | afterOp (pre : Str) (op : Char) (tail : Str) : '(' ∉ pre → (op = '*' ∨ op = '/') →
+      BadText T tail → BadText T (pre ++ op :: tail)
+  | inPar (pre inner tail : Str) : '(' ∉ pre → innerOk inner 1 = true →
+      BadText T (strip inner) → BadText T (pre ++ '(' :: (inner ++ ')' :: tail))
+  | afterPar (pre inner tail : Str) : '(' ∉ pre → innerOk inner 1 = true →
+      BadText T tail → BadText T (pre ++ '(' :: (inner ++ ')' :: tail))
+  | «open» (pre rest : Str) : '(' ∉ pre → unclosed rest 1 = true → BadText T (pre ++ '(' :: rest)
+
+theorem solve_of_tokenize_error (T : Tables) (arg : Str)
+    (h : ∀ (f : Nat) (toks : List Tok), ∃ err, tokenize T f arg [] toks = .error err) (f : Nat) :
+    ∃ err, solve T f arg = .error err := by
+  cases f with
+  | zero => exact ⟨.fuel, by rw [solve]⟩
+  | succ f' =>
+    obtain ⟨err, herr⟩ := h f' []
+    exact ⟨err, by rw [solve]; simp [herr]⟩
+
+theorem BadText.tokenize_error {T : Tables} {s : Str} (h : BadText T s) :
+    ∀ (f : Nat) (toks : List Tok), ∃ err, tokenize T f s [] toks = .error err := by
+  induction h with
+  | first piece post hp hpost hne hbad =>
+    intro f toks
+    exact tokenize_bad_first T piece post hp hpost hne hbad f toks
+  | afterOp pre op tail hnp hop _ ih =>
+    intro f toks
+    refine tokenize_walk T (op :: tail) ?_ pre hnp f [] toks
+    intro f left toks
+    cases f with
+    | zero => exact ⟨.fuel, tokenize_zero T _ _ _⟩
+    | succ f' =>
+      rw [tokenize]
+      cases hfl : flushLeft T left toks with
+      | error e => rcases hop with rfl | rfl <;> exact ⟨e, by simp⟩
+      | ok toks1 =>
+        rcases hop with rfl | rfl
+        · obtain ⟨err, herr⟩ := ih f' (toks1 ++ [.mul]); exact ⟨err, by simp [herr]⟩
+        · obtain ⟨err, herr⟩ := ih f' (toks1 ++ [.div]); exact ⟨err, by simp [herr]⟩
+  | inPar pre inner tail hnp hin _ ih =>
+    intro f toks
+    refine tokenize_walk T _ ?_ pre hnp f [] toks
+    intro f left toks
+    cases f with
+    | zero => exact ⟨.fuel, tokenize_zero T _ _ _⟩
+    | succ f' =>
+      rw [tokenize]
+      have hscan := scanPar_inner tail inner 1 [] [] hin
+      simp only [List.append_nil, List.reverse_reverse, List.nil_append] at hscan
+      obtain ⟨err, herr⟩ := solve_of_tokenize_error T (strip inner) ih f'
+      cases hfl : flushLeft T left toks with
+      | error e => exact ⟨e, by simp⟩
+      | ok toks1 => exact ⟨err, by simp [hscan, herr]⟩
+  | afterPar pre inner tail hnp hin _ ih =>
+    intro f toks
+    refine tokenize_walk T _ ?_ pre hnp f [] toks
+    intro f left toks
+    cases f with
+    | zero => exact ⟨.fuel, tokenize_zero T _ _ _⟩
+    | succ f' =>
+      rw [tokenize]
+      have hscan := scanPar_inner tail inner 1 [] [] hin
+      simp only [List.append_nil, List.reverse_reverse, List.nil_append] at hscan
+      cases hfl : flushLeft T left toks with
+      | error e => exact ⟨e, by simp⟩
+      | ok toks1 =>
+        cases hs : solve T f' (strip inner) with
+        | error e => exact ⟨e, by simp [hscan, hs]⟩
+        | ok v =>
+          obtain ⟨err, herr⟩ := ih f' (toks1 ++ [.par v])
+          exact ⟨err, by simp [hscan, hs, herr]⟩
+  | «open» pre rest hnp hun =>
+    intro f toks
+    refine tokenize_walk T _ ?_ pre hnp f [] toks
+    intro f left toks
+    cases f with
+    | zero => exact ⟨.fuel, tokenize_zero T _ _ _⟩
+    | succ f' =>
+      rw [tokenize]
+      have hscan := scanPar_unclosed rest 1 [] [] hun
+      cases hfl : flushLeft T left toks with
+      | error e => exact ⟨e, by simp⟩
+      | ok toks1 => exact ⟨.paren, by simp [hscan]⟩
+
+theorem unitSolver_badText (T : Tables) (s : Str) (h : BadText T s) :
+    ∃ err, unitSolver T s = .error err := by
+  obtain ⟨err, herr⟩ := h.tokenize_error (2 * s.length + 1) []
+  exact ⟨err, unitSolver_of_tokenize_error T s err herr⟩
+
 end SciVerif.C03
